@@ -85,7 +85,7 @@ class Check:
     # ----------------------------------------------------------------------------------------------------
     def run_tasks(self, tasks):
         if not tasks:
-            return
+            return []
         # largest first
         tasks = sorted(tasks, key=lambda t: -t.get('weight', 1))
         if self.jobs == 1 or len(tasks) == 1:
@@ -95,12 +95,13 @@ class Check:
             with ctx.Pool(min(self.jobs, len(tasks))) as pool:
                 outs = list(pool.imap_unordered(_run_task, tasks, chunksize=1))
         for o in outs:
-            self.task_reports.append({k: v for k, v in o.items() if k != 'results'})
+            self.task_reports.append({k: v for k, v in o.items() if k != 'results' and not k.startswith('_')})
             if o.get('error'):
                 self.errors.append(f"{o.get('task')}: {o['error']}")
             for r in o.get('results', []):
                 r.setdefault('contract', o.get('contract'))
                 self.results.append(r)
+        return outs
 
     # ----------------------------------------------------------------------------------------------------
     def known_findings(self):
